@@ -59,7 +59,7 @@ def run(res, pid, mix, classes, rule, nquick=60, nthorough=1500, assumptions=(),
         ops, i, m = own[0]
         dt, nb = hist.dostype_of(ops), hist.nblocks_of(ops)
         def still(c):
-            r = hist.run_one(exe, c, dt, nb, lean=False, fsck_every=fsck_every)
+            r = hist.run_one(exe, c, dt, nb, lean=False, fsck_every=fsck_every, timeout=40)
             return any(hist.classify(x[1]) in classes for x in r.oracle + r.fsck)
         small = hist.shrink(ops, still, budget=40 if res.tier == "quick" else 120)
         r = hist.run_one(exe, small, dt, nb, lean=False, fsck_every=fsck_every)
